@@ -41,6 +41,8 @@ structure Variant where
   f10 : Bool
   /-- F121 repaired: the filled COMPONENT array is cast to `int`. -/
   f121 : Bool
+  /-- F122 repaired: ROTANG is always written in degrees. -/
+  f122 : Bool
 deriving DecidableEq, Repr
 
 /-- the code in `/repo` now: F8 (d91a439), F9 (7c95242) and F121 (bdc0d0d) are repaired, F10 is an
@@ -48,10 +50,10 @@ open known finding (zero padding of polygons is kept).  Should F10 be repaired a
 `/verif/proposed_fixes/F10.diff`, set the third flag; `fits_roundtrip_full_refuted` and
 `fits_file_roundtrip_full_refuted` in `Props/C12.lean` then stop compiling and are replaced by
 `(roundTrip_iff _).mpr ⟨rfl, rfl, rfl⟩` / `(fileRoundTrip_iff _).mpr ⟨rfl, rfl, rfl, rfl⟩`. -/
-def Variant.current : Variant := ⟨true, true, false, true⟩
+def Variant.current : Variant := ⟨true, true, false, true, false⟩
 
-/-- the code with all four proposed patches. -/
-def Variant.fixed : Variant := ⟨true, true, true, true⟩
+/-- the code with all proposed patches. -/
+def Variant.fixed : Variant := ⟨true, true, true, true, true⟩
 
 /-! ### strings -/
 
@@ -123,12 +125,26 @@ def Incl.truthy : Incl → Bool
   | .bool b => b
   | .int n => n != 0
 
+/-- an angular unit as astropy knows it: its name, its scale (degrees per unit — an exact rational here,
+a parameter of the model) and whether `astropy.io.fits` can store it as a TUNIT. -/
+structure AUnit where
+  name : Name
+  deg : ℚ
+  fits : Bool
+deriving DecidableEq, Repr
+
+def AUnit.degree : AUnit := ⟨"deg".toList, 1, true⟩
+
+/-- `Quantity.to_value(unit)` between angular units (astropy; a parameter of the model):
+the value is untouched when the unit is the same, otherwise scaled by the ratio of the scales. -/
+def convAngle (src dst : AUnit) (x : ℚ) : ℚ := if src = dst then x else x * src.deg / dst.deg
+
 /-- One region, reduced to what the FITS writer reads through `region._params`:
 `xs, ys` = `.xy` of the `center` (one element each) or of the `vertices` (arrays);
 `params` = the remaining non-angle parameters in `_params` order
 (radius | width, height | inner_radius, outer_radius |
  inner_width, outer_width, inner_height, outer_height);
-`angle` (degrees) for classes that have one.
+`angle` (a value in the unit `aunit`) for classes that have one.
 For `regularPolygon` the record holds the `vertices` attribute in `xs, ys` (that is all
 `to_polygon()` reads).  `sky` = `isinstance(region, SkyRegion)`. -/
 structure Reg where
@@ -140,6 +156,8 @@ structure Reg where
   angle : Option ℚ
   incl : Incl
   comp : Option Int
+  /-- the unit of `angle` (irrelevant when `angle = none`) -/
+  aunit : AUnit
 deriving DecidableEq, Repr
 
 /-- `RegularPolygonPixelRegion.to_polygon()` -/
@@ -155,6 +173,8 @@ structure RegData where
   r : List ℚ
   rotang : List ℚ
   component : Option Int
+  /-- the unit of the `rotang` Quantity -/
+  rotangUnit : AUnit
 deriving DecidableEq, Repr
 
 def unsupportedRegions : List Name :=
@@ -181,6 +201,13 @@ def shapeOf (f8 : Bool) (kind : Kind) (excl : Bool) : Name × Bool :=
   let shape := if f8 && excl then '!' :: shape else shape
   (shape, halve)
 
+/-- the `rotang` Quantity of `_serialize_region_fits`: the region's `angle` as it is (value and
+unit), `u.Quantity(0, 'deg')` for a region without one.  With F122: converted to degrees. -/
+def rotOf (v : Variant) (region : Reg) : ℚ × AUnit :=
+  match region.angle with
+  | some a => if v.f122 then (convAngle region.aunit AUnit.degree a, AUnit.degree) else (a, region.aunit)
+  | none => (0, AUnit.degree)
+
 /-- `_serialize_region_fits`; `none` = "cannot be serialized … skipping" (with a warning). -/
 def serializeRegion (v : Variant) (region : Reg) : Option RegData :=
   let region := if region.kind = .regularPolygon then region.toPolygon else region
@@ -189,10 +216,8 @@ def serializeRegion (v : Variant) (region : Reg) : Option RegData :=
     let (shape, halve) := shapeOf v.f8 region.kind region.incl.eqZero
     let shapeParams := if halve then region.params.map (· / 2) else region.params
     let shapeParams := if shapeParams.isEmpty then [0] else shapeParams
-    let rotang := match region.angle with
-      | some a => a
-      | none => 0
-    some ⟨shape, region.xs, region.ys, shapeParams, [rotang], region.comp⟩
+    let (rotang, runit) := rotOf v region
+    some ⟨shape, region.xs, region.ys, shapeParams, [rotang], region.comp, runit⟩
 
 /-- one number in a table cell; `none` is NaN. -/
 abbrev Num := Option ℚ
@@ -259,17 +284,25 @@ structure Table where
   rows : List TRow
   /-- the COMPONENT column has dtype `object` -/
   compObject : Bool
+  /-- the unit of the ROTANG column -/
+  rotangUnit : AUnit
 deriving DecidableEq, Repr
 
 /-- `QTable()` -/
-def emptyTable : Table := ⟨[], [], false⟩
+def emptyTable : Table := ⟨[], [], false, AUnit.degree⟩
 
 /-- the padding value of the X and Y columns. -/
 def fillXY (v : Variant) : Num := if v.f10 then none else some 0
 
-def mkRow (v : Variant) (wx wy wr wa : Nat) (d : RegData) (c : Int) : TRow :=
+/-- `u.Quantity(data)` on a list of Quantities converts every element to the unit of the FIRST one. -/
+def columnUnit (rd : List RegData) : AUnit :=
+  match rd with
+  | d :: _ => d.rotangUnit
+  | [] => AUnit.degree
+
+def mkRow (v : Variant) (wx wy wr wa : Nat) (u0 : AUnit) (d : RegData) (c : Int) : TRow :=
   ⟨d.shape, padCell (fillXY v) wx d.x, padCell (fillXY v) wy d.y, padCell (some 0) wr d.r,
-   padCell (some 0) wa d.rotang, c⟩
+   padCell (some 0) wa (d.rotang.map (convAngle d.rotangUnit u0)), c⟩
 
 /-- `_make_table` -/
 def makeTable (v : Variant) (rd : List RegData) : Table :=
@@ -277,12 +310,13 @@ def makeTable (v : Variant) (rd : List RegData) : Table :=
   let wy := colWidth (rd.map (·.y))
   let wr := colWidth (rd.map (·.r))
   let wa := colWidth (rd.map (·.rotang))
+  let u0 := columnUnit rd
   match defineComponents v (rd.map (·.component)) with
   | none =>
-    ⟨[cSHAPE, cX, cY, cR, cROTANG], rd.map (fun d => mkRow v wx wy wr wa d 0), false⟩
+    ⟨[cSHAPE, cX, cY, cR, cROTANG], rd.map (fun d => mkRow v wx wy wr wa u0 d 0), false, u0⟩
   | some (cs, obj) =>
     ⟨[cSHAPE, cX, cY, cR, cROTANG, cCOMPONENT],
-     List.zipWith (fun d c => mkRow v wx wy wr wa d c) rd cs, obj⟩
+     List.zipWith (fun d c => mkRow v wx wy wr wa u0 d c) rd cs, obj, u0⟩
 
 inductive Warn
   | skySkipped
@@ -319,6 +353,7 @@ inductive Err
   | indexError
   | typeError
   | keyError
+  | unitScaleError
   /-- a NaN was about to become a region parameter: outside what this model describes -/
   | nanParameter
 deriving DecidableEq, Repr
@@ -437,33 +472,35 @@ def getShapeParams (v : Variant) (shape : Name) (row : TRow) (refs : List ColRef
 
 /-- `region_cls(*shape_params)`: the constructors with their validation
 (`PositiveScalar`: `value <= 0` ⇒ `ValueError`; annuli: `inner >= outer` ⇒ `ValueError`;
-`PixCoord(x, y)` with arrays that do not broadcast ⇒ `ValueError`).  Meta is set later. -/
-def construct : Kind → List ℚ → List ℚ → List ℚ → Except Err Reg
-  | .point, [x], [y], [] => .ok ⟨.point, false, [x], [y], [], none, .absent, none⟩
+`PixCoord(x, y)` with arrays that do not broadcast ⇒ `ValueError`).  Meta is set later.
+`au` is the unit of the ROTANG column: an angle read from it is a Quantity in that unit; a rectangle
+built without an angle gets the default `0 deg`. -/
+def construct (au : AUnit) : Kind → List ℚ → List ℚ → List ℚ → Except Err Reg
+  | .point, [x], [y], [] => .ok ⟨.point, false, [x], [y], [], none, .absent, none, AUnit.degree⟩
   | .circle, [x], [y], [r] =>
-    if r ≤ 0 then .error .valueError else .ok ⟨.circle, false, [x], [y], [r], none, .absent, none⟩
+    if r ≤ 0 then .error .valueError else .ok ⟨.circle, false, [x], [y], [r], none, .absent, none, AUnit.degree⟩
   | .ellipse, [x], [y], [w, h, a] =>
     if w ≤ 0 ∨ h ≤ 0 then .error .valueError
-    else .ok ⟨.ellipse, false, [x], [y], [w, h], some a, .absent, none⟩
+    else .ok ⟨.ellipse, false, [x], [y], [w, h], some a, .absent, none, au⟩
   | .circleAnnulus, [x], [y], [ri, ro] =>
     if ri ≤ 0 ∨ ro ≤ 0 ∨ ri ≥ ro then .error .valueError
-    else .ok ⟨.circleAnnulus, false, [x], [y], [ri, ro], none, .absent, none⟩
+    else .ok ⟨.circleAnnulus, false, [x], [y], [ri, ro], none, .absent, none, AUnit.degree⟩
   | .ellipseAnnulus, [x], [y], [iw, ow, ih, oh, a] =>
     if iw ≤ 0 ∨ ow ≤ 0 ∨ ih ≤ 0 ∨ oh ≤ 0 ∨ iw ≥ ow ∨ ih ≥ oh then .error .valueError
-    else .ok ⟨.ellipseAnnulus, false, [x], [y], [iw, ow, ih, oh], some a, .absent, none⟩
+    else .ok ⟨.ellipseAnnulus, false, [x], [y], [iw, ow, ih, oh], some a, .absent, none, au⟩
   | .rectangle, [x], [y], [w, h] =>
     if w ≤ 0 ∨ h ≤ 0 then .error .valueError
-    else .ok ⟨.rectangle, false, [x], [y], [w, h], some 0, .absent, none⟩
+    else .ok ⟨.rectangle, false, [x], [y], [w, h], some 0, .absent, none, AUnit.degree⟩
   | .rectangle, [x], [y], [w, h, a] =>
     if w ≤ 0 ∨ h ≤ 0 then .error .valueError
-    else .ok ⟨.rectangle, false, [x], [y], [w, h], some a, .absent, none⟩
+    else .ok ⟨.rectangle, false, [x], [y], [w, h], some a, .absent, none, au⟩
   | .polygon, xs, ys, [] =>
     if xs.length = ys.length ∨ xs.length = 1 ∨ ys.length = 1 then
       -- numpy broadcasting of a length-1 array against the other one
       let n := max xs.length ys.length
       let xs := if xs.length = n then xs else List.replicate n (xs.headD 0)
       let ys := if ys.length = n then ys else List.replicate n (ys.headD 0)
-      .ok ⟨.polygon, false, xs, ys, [], none, .absent, none⟩
+      .ok ⟨.polygon, false, xs, ys, [], none, .absent, none, AUnit.degree⟩
     else .error .valueError
   | _, _, _, _ => .error .typeError
 
@@ -477,7 +514,7 @@ def setMeta (v : Variant) (cols : List Name) (incl1 : Bool) (component : Int) (r
     { region with incl := incl }
 
 /-- `parse_row`; `none` = the row is skipped (with a warning). -/
-def parseRow (v : Variant) (cols : List Name) (row : TRow) : Except Err (Option Reg) := do
+def parseRow (v : Variant) (cols : List Name) (au : AUnit) (row : TRow) : Except Err (Option Reg) := do
   let (shape?, incl1) ← getShape cols row
   match shape? with
   | none => pure none
@@ -488,16 +525,16 @@ def parseRow (v : Variant) (cols : List Name) (row : TRow) : Except Err (Option 
       if refs.any (fun ref => !cols.contains ref.col.name) then pure none
       else do
         let (xs, ys, rest) ← getShapeParams v shape row refs
-        let region ← construct kind xs ys rest
+        let region ← construct au kind xs ys rest
         pure (some (setMeta v cols incl1 row.component region))
 
 def validColumns : List Name := [cX, cY, cSHAPE, cR, cROTANG, cCOMPONENT]
 
-def parseRows (v : Variant) (cols : List Name) : List TRow → Except Err (List Reg)
+def parseRows (v : Variant) (cols : List Name) (au : AUnit) : List TRow → Except Err (List Reg)
   | [] => .ok []
   | row :: rest => do
-    let r ← parseRow v cols row
-    let rs ← parseRows v cols rest
+    let r ← parseRow v cols au row
+    let rs ← parseRows v cols au rest
     pure (match r with
       | some x => x :: rs
       | none => rs)
@@ -505,21 +542,26 @@ def parseRows (v : Variant) (cols : List Name) : List TRow → Except Err (List 
 /-- `parse_table` -/
 def parseTable (v : Variant) (t : Table) : Except Err (List Reg) :=
   if t.cols.any (fun c => !validColumns.contains c) then .error .fitsParserError
-  else parseRows v t.cols t.rows
+  else parseRows v t.cols t.rotangUnit t.rows
 
 /-! ### the file layer (astropy `BinTableHDU.writeto` / `fits.open` + `QTable.read`)
 
 A parameter of the model.  Its assumed law (exercised for real by the correspondence run):
-a table without object-dtype columns comes back unchanged; a table with an object-dtype
-column cannot be written (`TypeError`). -/
+a table without object-dtype columns whose ROTANG unit FITS knows comes back unchanged; a table with an
+object-dtype column cannot be written (`TypeError`); nor can a table whose ROTANG unit FITS does not
+know (`hourangle`: `UnitScaleError`). -/
 
 structure FileLayer (F : Type) where
   write : Table → Except Err F
   read : F → Table
 
+/-- the ROTANG unit can be stored (a table without rows has no ROTANG column). -/
+def Table.unitStorable (t : Table) : Bool := t.rows.isEmpty || t.rotangUnit.fits
+
 def FileLayer.Lawful {F : Type} (fl : FileLayer F) : Prop :=
   (∀ t, t.compObject = true → fl.write t = .error .typeError) ∧
-  (∀ t, t.compObject = false → ∃ f, fl.write t = .ok f ∧ fl.read f = t)
+  (∀ t, t.compObject = false → t.unitStorable = false → fl.write t = .error .unitScaleError) ∧
+  (∀ t, t.compObject = false → t.unitStorable = true → ∃ f, fl.write t = .ok f ∧ fl.read f = t)
 
 /-- `Regions.write(file, format='fits')` then `Regions.read(file, format='fits')`. -/
 def throughFile {F : Type} (fl : FileLayer F) (v : Variant) (regions : List Reg) :
@@ -529,6 +571,7 @@ def throughFile {F : Type} (fl : FileLayer F) (v : Variant) (regions : List Reg)
 
 /-- the executable instance used by the driver: files are tables. -/
 def idFileLayer : FileLayer Table :=
-  ⟨fun t => if t.compObject then .error .typeError else .ok t, fun t => t⟩
+  ⟨fun t => if t.compObject then .error .typeError
+            else if !t.unitStorable then .error .unitScaleError else .ok t, fun t => t⟩
 
 end RegionsVerif.Impl.Fits
